@@ -469,7 +469,12 @@ func c08RandCall(r *rand.Rand, pBad int) *c08Call {
 		}
 		return c08NewCall(r, mi, el, pBad)
 	}
-	return c08NewCall(r, ms[r.Intn(len(ms))], "", pBad)
+	mi := ms[r.Intn(len(ms))]
+	cl := c08NewCall(r, mi, "", pBad)
+	if mi.Slice && len(cl.Values) > 0 && r.Intn(40) == 0 { // a count at / just above a round limit, written compactly
+		cl.Pad, cl.PadTexts = c08SmallEdges[r.Intn(len(c08SmallEdges))]-len(cl.Values), c08PadTexts(r, mi.Fam, mi.E, cl.Layout)
+	}
+	return cl
 }
 
 func c08RandCustom(r *rand.Rand, pBad int) *c08Custom {
@@ -521,6 +526,17 @@ func c08GenChain(r *rand.Rand) *c08Case {
 	}
 	if r.Intn(2) == 0 {
 		c.Ops = append(c.Ops, c08Op{Kind: []string{"binderror", "binderrors"}[r.Intn(2)]})
+	}
+	if c.Binder == "multipart" { // mime/multipart refuses forms of more than 1000 parts
+		budget := 800
+		for _, op := range c.Ops {
+			if op.Kind == "call" && op.Call != nil && op.Call.Pad > 0 && !op.Call.PadJoin {
+				if op.Call.Pad > budget {
+					op.Call.Pad = budget
+				}
+				budget -= op.Call.Pad
+			}
+		}
 	}
 	return c
 }
@@ -576,6 +592,9 @@ func c08GenStruct(r *rand.Rand) *c08Case {
 			nv = 2
 		}
 		f := c08Field{Name: info.Name}
+		if info.Wrap >= 2 && r.Intn(80) == 0 { // a count at / just above a round limit
+			f.Pad, f.PadTexts = c08SmallEdges[r.Intn(len(c08SmallEdges))]-nv, c08PadTexts(r, info.Fam, info.E, "")
+		}
 		for j := 0; j < nv; j++ {
 			s := c08GenText(r, info.Fam, info.E, pBad)
 			if r.Intn(pEmpty) == 0 {
@@ -595,6 +614,15 @@ func c08GenStruct(r *rand.Rand) *c08Case {
 	if c.Source == "param+query" {
 		for i := 0; i < r.Intn(3); i++ {
 			c.Fields2 = append(c.Fields2, field(infos[r.Intn(len(infos))]))
+		}
+	}
+	if c.Source == "multipart" { // mime/multipart refuses forms of more than 1000 parts
+		budget := 800
+		for i := range c.Fields {
+			if c.Fields[i].Pad > budget {
+				c.Fields[i].Pad = budget
+			}
+			budget -= c.Fields[i].Pad
 		}
 	}
 	return c
@@ -820,6 +848,7 @@ func c08Gen(r *rand.Rand, tier string) []any {
 		c08ServerShare = 8
 	}
 	out := c08Probe(r)
+	out = append(out, c08CountBlock(r, tier)...)
 	for i := 0; i < nChains; i++ {
 		out = append(out, c08GenChain(r))
 	}
@@ -852,7 +881,250 @@ func c08Gen(r *rand.Rand, tier string) []any {
 	return out
 }
 
+// ---------- long value lists ----------
+
+// numbers of values at and just above the round limits an implementation may have for one
+// parameter: powers of two, powers of ten, the ranges of uint8 / int16 / uint16 counters
+var c08CountEdges = []int{100, 101, 127, 128, 129, 255, 256, 257, 511, 512, 513, 999, 1000, 1001, 1023, 1024, 1025, 2047, 2048, 2049,
+	4095, 4096, 4097, 8191, 8192, 8193, 9999, 10000, 10001, 16383, 16384, 16385, 32767, 32768, 32769, 65535, 65536, 65537}
+
+// the edges up to 4097 (cheap enough for every field / method on every run)
+var c08SmallEdges = []int{100, 101, 128, 129, 256, 257, 512, 513, 1000, 1001, 1024, 1025, 2048, 2049, 4096, 4097}
+
+// one more than a round limit: the first count at which a clamp to that limit shows
+var c08AboveSmall = []int{101, 129, 257, 513, 1001, 1025, 2049, 4097}
+var c08AboveLarge = []int{8193, 10001, 16385, 32769, 65537}
+
+// a handful of distinct texts that denote values of element type E (cycled to fill a long list)
+func c08PadTexts(r *rand.Rand, fam int, E reflect.Type, layout string) []string {
+	var out []string
+	seen := map[string]bool{}
+	for k := 0; k < 60 && len(out) < 5; k++ {
+		var s string
+		if fam == famTime {
+			s = c08RandTime(r).Format(layout)
+		} else {
+			s = c08ValidFor(r, fam, E)
+		}
+		if fam == famUnix {
+			s = fmt.Sprint(r.Intn(2000000000))
+		}
+		if len(s) > 24 || s == "" || seen[s] || strings.Contains(s, ",") {
+			continue
+		}
+		if _, ok := c08DenoteL(fam, E, layout, s); !ok {
+			continue
+		}
+		seen[s] = true
+		out = append(out, s)
+	}
+	if len(out) == 0 {
+		switch fam {
+		case famBool:
+			out = []string{"true"}
+		case famTime:
+			out = []string{c08RandTime(r).Format(layout)}
+		default:
+			out = []string{"1"}
+		}
+	}
+	return out
+}
+
+// a text that does NOT denote a value of element type E ("" when every text does)
+func c08BadText(r *rand.Rand, fam int, E reflect.Type, layout string) string {
+	if fam == famStr {
+		return ""
+	}
+	for k := 0; k < 40; k++ {
+		s := c08Adversarial(r, fam, E)
+		if fam == famTime {
+			s = c08TimeTexts[1+r.Intn(len(c08TimeTexts)-1)]
+		}
+		if s == "" || len(s) > 40 || strings.Contains(s, ",") {
+			continue
+		}
+		if _, ok := c08DenoteL(fam, E, layout, s); !ok {
+			return s
+		}
+	}
+	if fam == famUnm {
+		return "!x"
+	}
+	return "x"
+}
+
+// deterministic block: the NUMBER of values one destination receives.  Every multi-valued field of
+// the catalogue struct (slices, slices of pointers, pointers to slices, UnmarshalParams
+// destinations, slices of named kinds) and every slice method / BindWithDelimiter destination /
+// CustomFunc of the value binder receives lists whose length sits at and one above the round
+// limits (2^k, 10^k, 2^16): all values valid (every one must be stored, in order), or a text that
+// does not fit in the LAST position (it must be reported, however long the list before it is).
+// Scalar fields receive long lists too (only the first value counts, the rest is never converted).
+func c08CountBlock(r *rand.Rand, tier string) []any {
+	var out []any
+	_, infos := c08Catalogue()
+	thorough := tier == "thorough"
+	// quick tier: 129, 257, 1001, 1025, 4097 and one count AT a limit for every destination, one count
+	// above 8192 (65537 first) for every fourth; thorough: every edge up to 4097, two above 8192
+	nLarge := 0
+	large := func() int {
+		nLarge++
+		if nLarge == 1 {
+			return 65537
+		}
+		return c08AboveLarge[r.Intn(len(c08AboveLarge))]
+	}
+	phase := r.Intn(4)
+	pickCounts := func(i int) []int {
+		if thorough {
+			return append(append([]int(nil), c08SmallEdges...), large(), c08CountEdges[23+r.Intn(len(c08CountEdges)-23)])
+		}
+		l := []int{129, 257, 1001, 1025, 4097, []int{256, 1024, 4096}[(i+phase)%3]}
+		if (i+phase)%4 == 0 {
+			l = append(l, large())
+		}
+		return l
+	}
+	both := map[int]bool{1025: true, 65537: true}
+	srcs := []string{"query", "form", "header", "bind-get", "multipart"}
+	lens := []string{"", "unknown", "chunked"}
+	k := 0
+	for i, info := range infos {
+		if info.Wrap < 2 {
+			continue
+		}
+		pad := c08PadTexts(r, info.Fam, info.E, "")
+		bad := c08BadText(r, info.Fam, info.E, "")
+		for _, n := range pickCounts(i) {
+			variants := []bool{(i+n)%2 == 0}
+			if both[n] || thorough && n%2 == 1 {
+				variants = []bool{false, true}
+			}
+			for _, wantBad := range variants {
+				tail := pad[r.Intn(len(pad))]
+				if wantBad {
+					if bad == "" {
+						continue
+					}
+					tail = bad
+				}
+				k++
+				src := srcs[k%len(srcs)]
+				if src == "multipart" && n > 900 { // mime/multipart refuses forms of more than 1000 parts
+					src = srcs[k%4]
+				}
+				c := &c08Case{Kind: "struct", Source: src, Prepop: k%3 == 0, Fields: []c08Field{{Name: info.Name, Pad: n - 1, PadTexts: pad, Values: []string{tail}}}}
+				if src == "form" || src == "multipart" {
+					c.LenMode = lens[k%len(lens)]
+				}
+				out = append(out, c)
+			}
+		}
+	}
+	// scalar and pointer fields: many values, only the first is looked at
+	for i, info := range infos {
+		if info.Wrap >= 2 || i%5 != 0 {
+			continue
+		}
+		pad := c08PadTexts(r, info.Fam, info.E, "")[:1]
+		for _, n := range []int{257, 1025, c08AboveLarge[i%len(c08AboveLarge)]} {
+			tail := c08BadText(r, info.Fam, info.E, "")
+			if tail == "" {
+				tail = "other"
+			}
+			k++
+			out = append(out, &c08Case{Kind: "struct", Source: srcs[k%4], Prepop: k%2 == 0,
+				Fields: []c08Field{{Name: info.Name, Pad: n - 1, PadTexts: pad, Values: []string{tail}}}})
+		}
+	}
+	// the value binder: slice methods
+	binders := []string{"", "form", "", "multipart"}
+	nLarge = 0 // (65537 first again)
+	for i, mi := range c08Methods() {
+		if !mi.Slice {
+			continue
+		}
+		counts := pickCounts(i)
+		for _, n := range counts {
+			for _, wantBad := range []bool{false, true} {
+				if !thorough && !both[n] && wantBad != ((i+n)%2 == 0) {
+					continue
+				}
+				cl := c08NewCall(r, mi, "", 0)
+				pad := c08PadTexts(r, mi.Fam, mi.E, cl.Layout)
+				tail := pad[r.Intn(len(pad))]
+				if wantBad {
+					if tail = c08BadText(r, mi.Fam, mi.E, cl.Layout); tail == "" {
+						continue
+					}
+				}
+				cl.Values, cl.Pad, cl.PadTexts = []string{tail}, n-1, pad
+				k++
+				binder := binders[k%len(binders)]
+				if binder == "multipart" && n > 900 {
+					binder = "form"
+				}
+				out = append(out, &c08Case{Kind: "vb", FailFast: k%2 == 0, Binder: binder, Ops: []c08Op{{Kind: "call", Call: cl}, {Kind: "binderrors"}}})
+			}
+		}
+	}
+	// BindWithDelimiter: many pieces in ONE value, and many values
+	nLarge = 0
+	for i, el := range c08DelimElems {
+		mi, _ := c08DelimDest(el)
+		counts := pickCounts(i)
+		for j, n := range counts {
+			for _, wantBad := range []bool{false, true} {
+				if !thorough && !both[n] && wantBad != ((i+j)%2 == 0) {
+					continue
+				}
+				pad := c08PadTexts(r, mi.Fam, mi.E, "")
+				tail := pad[r.Intn(len(pad))]
+				if wantBad {
+					if tail = c08BadText(r, mi.Fam, mi.E, ""); tail == "" {
+						continue
+					}
+				}
+				k++
+				cl := &c08Call{Method: []string{"BindWithDelimiter", "MustBindWithDelimiter"}[k%2], Elem: el, Delim: []string{",", "|", "ab"}[k%3],
+					Values: []string{tail}, Pad: n - 1, PadTexts: pad, PadJoin: (i+j)%3 != 0, InitNil: k%2 == 0}
+				if !cl.InitNil {
+					cl.Init = []string{}
+				}
+				out = append(out, &c08Case{Kind: "vb", FailFast: k%2 == 0, Binder: binders[k%2], Ops: []c08Op{{Kind: "call", Call: cl}, {Kind: "binderrors"}}})
+			}
+		}
+	}
+	// CustomFunc: the function must receive every value of the parameter
+	for i, n := range []int{257, 1025, 4097, c08AboveLarge[r.Intn(5)]} {
+		for _, must := range []bool{false, true} {
+			for _, tail := range []string{"z", "!z"} {
+				out = append(out, &c08Case{Kind: "vb", FailFast: i%2 == 0, Binder: binders[i%2],
+					Ops: []c08Op{{Kind: "custom", Custom: &c08Custom{Must: must, Values: []string{tail}, Pad: n - 1, PadTexts: []string{"a", "b", "c"}, InitNil: true}}, {Kind: "binderrors"}}})
+			}
+		}
+	}
+	return out
+}
+
 // ---------- shrinking ----------
+
+// c08ShrinkPad: smaller pad counts to try — half, three quarters, …, one less
+func c08ShrinkPad(n int) []int {
+	var out []int
+	seen := map[int]bool{n: true}
+	for d := 2; n/d > 0; d *= 2 {
+		if m := n - n/d; !seen[m] {
+			seen[m] = true
+			out = append(out, m)
+		}
+	}
+	if n > 0 && !seen[n-1] {
+		out = append(out, n-1)
+	}
+	return out
+}
 
 func c08ShorterStrings(s string) []string {
 	var out []string
@@ -899,6 +1171,33 @@ func c08Shrink(ci any) []any {
 			}
 		}
 		for i, f := range c.Fields {
+			for _, m := range c08ShrinkPad(f.Pad) {
+				d := *c
+				d.Fields = append([]c08Field(nil), c.Fields...)
+				nf := f
+				nf.Pad = m
+				d.Fields[i] = nf
+				out = append(out, &d)
+			}
+			if len(f.PadTexts) > 1 {
+				d := *c
+				d.Fields = append([]c08Field(nil), c.Fields...)
+				nf := f
+				nf.PadTexts = f.PadTexts[:1]
+				d.Fields[i] = nf
+				out = append(out, &d)
+			}
+			if len(f.Values) > 64 { // a long explicit list: halves first
+				for _, half := range [][]string{f.Values[:len(f.Values)/2], f.Values[len(f.Values)/2:], f.Values[:len(f.Values)-1]} {
+					d := *c
+					d.Fields = append([]c08Field(nil), c.Fields...)
+					nf := f
+					nf.Values = append([]string(nil), half...)
+					d.Fields[i] = nf
+					out = append(out, &d)
+				}
+				continue
+			}
 			for j := range f.Values {
 				if len(f.Values) > 1 {
 					d := *c
@@ -975,6 +1274,14 @@ func c08Shrink(ci any) []any {
 	}
 	for i, op := range c.Ops {
 		if op.Kind == "custom" && op.Custom != nil {
+			for _, m := range c08ShrinkPad(op.Custom.Pad) {
+				n := *op.Custom
+				n.Pad = m
+				d := *c
+				d.Ops = append([]c08Op(nil), c.Ops...)
+				d.Ops[i] = c08Op{Kind: "custom", Custom: &n}
+				out = append(out, &d)
+			}
 			for j := range op.Custom.Values {
 				if len(op.Custom.Values) > 1 {
 					n := *op.Custom
@@ -1004,6 +1311,24 @@ func c08Shrink(ci any) []any {
 			out = append(out, &d)
 		}
 		cl := op.Call
+		for _, m := range c08ShrinkPad(cl.Pad) {
+			n := c08CloneCall(cl)
+			n.Pad = m
+			repl(n)
+		}
+		if len(cl.PadTexts) > 1 {
+			n := c08CloneCall(cl)
+			n.PadTexts = cl.PadTexts[:1]
+			repl(n)
+		}
+		if len(cl.Values) > 64 {
+			for _, half := range [][]string{cl.Values[:len(cl.Values)/2], cl.Values[len(cl.Values)/2:], cl.Values[:len(cl.Values)-1]} {
+				n := c08CloneCall(cl)
+				n.Values = append([]string(nil), half...)
+				repl(n)
+			}
+			continue
+		}
 		for j := range cl.Values {
 			if len(cl.Values) > 1 {
 				n := c08CloneCall(cl)
@@ -1068,12 +1393,13 @@ func c08Mutate(r *rand.Rand, ci any) []any {
 func init() {
 	register(&Prop{
 		ID:             "C08",
-		Rule:           "probe table: every exported ValueBinder method with signature (string,*T)/(string,*[]T) (enumerated by reflect), every BindWithDelimiter destination and every field of a catalogue struct (17 scalar kinds, pointers, slices, slices of pointers, pointers to slices; sources query/Bind/form/multipart/header/param) x 48 decimal boundaries (±(2^w+{-1,0,1}), w=7,8,15,16,31,32,63,64) and ~170 look-alikes (signs, leading zeros, whitespace, 0x/_/e forms, Unicode digits, 40-digit numbers, float32/64 rounding witnesses, duration limits, empty) and ~210 long numerals (60-300 leading zeros before small values and before every width boundary, sign + zeros, digit strings that overflow only after many zeros, 100-800 digit strings, floats whose value depends on a long mantissa / fraction / exponent tail); plus random chains of 2-7 binder ops (calls, FailFast, BindError, BindErrors) and random struct requests of 1-6 fields; non-trivial = a converted text within ±1 of a width boundary or a look-alike of a number, or a call made while the binder already holds an error; distinct = distinct model op lines",
+		Rule:           "probe table: every exported ValueBinder method with signature (string,*T)/(string,*[]T) (enumerated by reflect), every BindWithDelimiter destination and every field of a catalogue struct (17 scalar kinds, pointers, slices, slices of pointers, pointers to slices; sources query/Bind/form/multipart/header/param) x 48 decimal boundaries (±(2^w+{-1,0,1}), w=7,8,15,16,31,32,63,64) and ~170 look-alikes (signs, leading zeros, whitespace, 0x/_/e forms, Unicode digits, 40-digit numbers, float32/64 rounding witnesses, duration limits, empty) and ~210 long numerals (60-300 leading zeros before small values and before every width boundary, sign + zeros, digit strings that overflow only after many zeros, 100-800 digit strings, floats whose value depends on a long mantissa / fraction / exponent tail); value COUNTS: every multi-valued catalogue field, every slice method, every BindWithDelimiter destination (pieces in one value, and separate values) and CustomFunc with lists of 129, 257, 1001, 1025, 4097 values and one count AT a limit (256/1024/4096) on every run, 8193-65537 for every fourth destination (thorough: every edge 100..4097, two above 8192), all valid or with a text that does not fit in the LAST position; scalar fields with 257-65537 values (only the first counts); plus random chains of 2-7 binder ops (calls, FailFast, BindError, BindErrors) and random struct requests of 1-6 fields; non-trivial = a converted text within ±1 of a width boundary or a look-alike of a number, or a call made while the binder already holds an error; distinct = distinct model op lines",
 		New:            func() any { return &c08Case{} },
 		Gen:            c08Gen,
 		Run:            c08Run,
 		Shrink:         c08Shrink,
 		Mutate:         c08Mutate,
+		Tolerable:      c08Tolerable,
 		Correspondence: "C08.vbRun / C08.structBind (lean/EchoModel/C08.lean) vs echo.ValueBinder methods and DefaultBinder.Bind*/setWithProperType",
 		Extra: func(tier string, seed int64) map[string]any {
 			var names []string
